@@ -18,6 +18,8 @@ for even degrees, is measured and recorded as an observation, never a verdict.
 """
 from fractions import Fraction
 
+import numpy as np
+
 from mc import common, tab_rules
 from mc.tab_rules import FAMILIES, GAUSS_FAMILIES
 
@@ -290,8 +292,44 @@ def run(ctx):
     # -- constructors
     ctor_counts = {}
     ctor_obs = []
-    for ctor, args, rule, key, res, exc in constructor_cases(entries):
+    # two passes in this one process: the second after 120 further distinct schemes (Gauss-Legendre orders 1, 3, ..., 239) have been
+    # requested - a convergence study in one process; every request must still return the table entry it asks for
+    first_pass = [(c_ + ('first pass', )) for c_ in constructor_cases(entries)]
+    n_sweep = 0
+    for ctor_, args_, *_rest in first_pass:  # plain requests first (no wrapper), then the order sweep
+        try:
+            getattr(q, ctor_)(*args_)
+        except BaseException:  # noqa
+            pass
+    for n_ in range(1, 240, 2):
+        sch = q.gauss_quadrature_scheme(n_)
+        n_sweep += 1
+        if len(sch.points) != (n_ + 1) // 2 or abs(float(np.sum(sch.weights)) - 1.0) > 1e-13:
+            ctx.violation({'rule': 'gauss_quadrature_scheme', 'clause': 'constructor', 'N': n_},
+                          'gauss_quadrature_scheme({}) returns {} nodes with weight sum {!r}'.format(n_, len(sch.points), float(np.sum(sch.weights))),
+                          {'kind': 'constructor', 'ctor': 'gauss_quadrature_scheme', 'args': [n_]})
+    def plain_pass(label):
+        # the constructors are called WITHOUT the recording wrapper here (a wrapper is a new function object per call, which
+        # would defeat any memo keyed by the rule function); the key each request maps to is known from the first pass
+        out_ = []
+        for ctor, args, rule, key, _res, _exc, _p in first_pass:
+            try:
+                r_, x_ = getattr(q, ctor)(*args), None
+            except BaseException as ex_:  # noqa
+                r_, x_ = None, ex_
+            out_.append((ctor, args, rule, key, r_, x_, label))
+        return out_
+    second_pass = plain_pass('plain request after all constructor requests and {} Gauss-Legendre orders in this process'.format(n_sweep))
+    for ctor, args, rule, key, res, exc, pass_ in first_pass + second_pass:
         evaluations += 1
+        if pass_ != 'first pass':
+            if exc is None and isinstance(res, q.QuadScheme1D) and same_as_entry((getattr(res, 'points', None), getattr(res, 'weights', None)), entries[(rule, key)]):
+                continue
+            ctx.violation({'rule': ctor, 'args': list(args), 'table': rule, 'clause': 'constructor-history'},
+                          '{}{} ({}) maps to the present key {}({}) but {}'.format(ctor, args, pass_, rule, key, 'raised ' + repr(exc) if exc is not None else
+                                                                                   'returned a scheme with {} nodes not carrying the table entry'.format(len(getattr(res, 'points', [])))),
+                          {'kind': 'constructor', 'ctor': ctor, 'args': list(args), 'sweep': n_sweep})
+            continue
         distinct.add((ctor, args))
         ctor_counts[ctor] = ctor_counts.get(ctor, 0) + 1
         e = entries[(rule, key)]
@@ -362,6 +400,14 @@ def replay(ctx, data):
         return status == 'value' and val is not None and e is not None and e.returned
     if kind == 'constructor':
         import src.quadrature as q
+        if data.get('sweep'):  # history: all constructor requests once, the order sweep, then the request itself
+            for ctor_, args_, *_r in constructor_cases(entries):
+                try:
+                    getattr(q, ctor_)(*args_)
+                except BaseException:  # noqa
+                    pass
+            for n_ in range(1, 2 * int(data['sweep']), 2):
+                q.gauss_quadrature_scheme(n_)
         try:
             res = getattr(q, data['ctor'])(*data['args'])
         except BaseException as ex:  # noqa
